@@ -70,7 +70,10 @@ GlobalLeaves == <<
   Glob("ri2", "raw", <<2>>, "i", <<Z(1), Z(-1)>>),
   Glob("rin", "raw", <<>>, "i", <<Z(-1)>>),
   Glob("cc0", "const", <<>>, "c", <<CC(1, 1, -1, 1)>>),
-  Glob("ci2", "const", <<2>>, "i", <<Z(-3), Z(2)>>)
+  Glob("ci2", "const", <<2>>, "i", <<Z(-3), Z(2)>>),
+  \* sorted data for searchsorted / interp
+  Glob("cs3", "const", <<3>>, "f", <<Z(-1), Q(1, 2), Z(2)>>),
+  Glob("as3", "arg", <<3>>, "f", <<Z(0), Z(1), Z(3)>>)
 >>
 
 \* point-dependent leaves: pv = per-point flat values
@@ -210,11 +213,11 @@ DoUnary == \E op \in (UnaryOps \cap Ops) : Nu(L) /\ Push(op, <<L>>, <<>>)
 \* ---- reductions
 RSpec(mode, ax, kd) == [mode |-> mode, ax |-> ax, kd |-> kd]
 RedSpecs(r) ==
-    {RSpec("none", <<>>, 0)} \cup {RSpec("int", <<a>>, 0) : a \in (-r - 1)..r}
+    {RSpec("none", <<>>, 0)} \cup (IF r = 0 THEN {RSpec("int", <<1>>, 0), RSpec("int", <<-2>>, 0)} ELSE {RSpec("int", <<a>>, 0) : a \in (-r - 1)..r})
     \cup (IF Wide THEN {RSpec("tuple", <<0, 1>>, 0), RSpec("tuple", <<1, 0>>, 0), RSpec("tuple", <<0, -1>>, 0), RSpec("tuple", <<-1, -2>>, 0),
                         RSpec("tuple", <<0, 0>>, 0), RSpec("tuple", <<>>, 0), RSpec("tuple", <<0>>, 0), RSpec("tuple", <<0, 1, 2>>, 0),
                         RSpec("tuple", <<2, 0>>, 0), RSpec("tuple", <<0, -2>>, 0),
-                        RSpec("none", <<>>, 1), RSpec("int", <<0>>, 1), RSpec("tuple", <<0, -1>>, 1)}
+                        RSpec("none", <<>>, 1), RSpec("tuple", <<0, -1>>, 1)} \cup (IF r = 0 THEN {} ELSE {RSpec("int", <<0>>, 1)})
           ELSE {RSpec("tuple", <<0, -1>>, 0), RSpec("tuple", <<1, 0>>, 0)})
 DoReduce == \E op \in (ReduceOps \cap Ops) : Nu(L) /\ \E spec \in RedSpecs(Rank(L)) : Push(op, <<L>>, spec)
 
@@ -253,7 +256,7 @@ DoGetItem == /\ "getitem" \in Ops /\ Nu(L)
 ItNode == [k |-> "node", a |-> <<2>>, sh |-> <<>>, c |-> 0]
 NodeItemPool == << <<ItNode>>, <<ItFull, ItNode>>, <<ItNode, ItInt(0)>>, <<ItEll, ItNode>>, <<ItNode, ItNode>>, <<ItNode, ItFull, ItNode>>, <<ItNode, Rev>> >>
 DoGetItemNode == /\ "getitem_node" \in Ops
-                /\ \E ij \in Pairs : /\ OkNode(ij[1]) /\ OkNode(ij[2]) /\ Kind(ij[2]) = "i" /\ Rank(ij[1]) >= 1 /\ ij[1] # ij[2]
+                /\ \E ij \in Pairs : /\ OkNode(ij[1]) /\ OkNode(ij[2]) /\ Nu(ij[1]) /\ Kind(ij[2]) = "i" /\ Rank(ij[1]) >= 1 /\ ij[1] # ij[2]
                                      /\ \E k \in 1..Len(NodeItemPool) : /\ ConsumedAll(NodeItemPool[k]) + Cardinality({q \in 1..Len(NodeItemPool[k]) : NodeItemPool[k][q].k = "node"}) <= Rank(ij[1]) + 1
                                                                         /\ Push("getitem", ij, NodeItemPool[k])
 
@@ -289,7 +292,7 @@ DoBroadcastTo == /\ "broadcast_to" \in Ops /\ Nu(L)
                                       /\ Push("broadcast_to", <<L>>, sh)
 DoRepeat == /\ "repeat" \in Ops /\ Nu(L)
            /\ \/ Push("repeat", <<L>>, <<2, 0, 0>>)
-              \/ \E n \in {2, 3} : \E a \in (-Rank(L) - 1)..Rank(L) : (Wide \/ n = 2) /\ Push("repeat", <<L>>, <<n, 1, a>>)
+              \/ \E n \in {2, 3} : \E a \in (IF Rank(L) = 0 THEN {1} ELSE (-Rank(L) - 1)..Rank(L)) : (Wide \/ n = 2) /\ Push("repeat", <<L>>, <<n, 1, a>>)
 
 \* ---- joining
 DoJoin == \E op \in ({"stack", "concatenate"} \cap Ops) :
@@ -302,18 +305,21 @@ DoJoin == \E op \in ({"stack", "concatenate"} \cap Ops) :
 TakeSpec(axg, ax, lit, ish, idx) == [axg |-> axg, ax |-> ax, lit |-> lit, ish |-> ish, idx |-> idx]
 LitIdxPool == {<<<<>>, <<1>>>>, <<<<>>, <<-1>>>>, <<<<2>>, <<1, 0>>>>, <<<<3>>, <<0, -1, 0>>>>, <<<<2, 2>>, <<1, -1, 0, 0>>>>, <<<<1>>, <<3>>>>, <<<<2>>, <<0, -4>>>>, <<<<0>>, <<>>>>, <<<<>>, <<5>>>>}
 DoTake == /\ "take" \in Ops
-         /\ \/ /\ Nu(L) /\ \E li \in LitIdxPool : \E axs \in {<<0, 0>>} \cup {<<1, a>> : a \in (-Rank(L) - 1)..Rank(L)} :
+         /\ \/ /\ Nu(L) /\ \E li \in LitIdxPool : \E axs \in {<<0, 0>>} \cup (IF Rank(L) = 0 THEN {<<1, 1>>} ELSE {<<1, a>> : a \in (-Rank(L) - 1)..Rank(L)}) :
                      (Wide \/ (li[1] # <<2, 2>> /\ axs[2] >= -1)) /\ Push("take", <<L>>, TakeSpec(axs[1], axs[2], 1, li[1], li[2]))
-            \/ \E ij \in Pairs : /\ OkNode(ij[1]) /\ OkNode(ij[2]) /\ Kind(ij[2]) \in {"i", "b"} /\ ij[1] # ij[2]
+            \* numpy.take dispatches on its first argument only: that one must be the function array
+            \/ \E ij \in Pairs : /\ OkNode(ij[1]) /\ OkNode(ij[2]) /\ Nu(ij[1]) /\ Kind(ij[2]) \in {"i", "b"} /\ ij[1] # ij[2]
                                  /\ \E axs \in {<<0, 0>>} \cup {<<1, a>> : a \in (-Rank(ij[1]))..(Rank(ij[1]) - 1)} :
                                        Push("take", ij, TakeSpec(axs[1], axs[2], 0, <<>>, <<>>))
 DoChoose == /\ "choose" \in Ops
            /\ \/ \E t \in Triples : OkNode(t[1]) /\ OkNode(t[2]) /\ OkNode(t[3]) /\ Kind(t[1]) \in {"i", "b"} /\ Push("choose", t, <<>>)
 CSpec(cond, axg, ax) == [cond |-> cond, axg |-> axg, ax |-> ax]
 DoCompress == /\ "compress" \in Ops /\ Nu(L) /\ Rank(L) >= 1
-             /\ \E cond \in {<<1, 0>>, <<0, 1, 1>>, <<1, 0, 1>>, <<0, 0>>, <<1, 1, 0, 0, 1, 0>>, <<1>>} :
+             /\ \E cond \in {<<1, 0>>, <<0, 1, 1>>, <<1, 0, 1>>, <<0, 0>>, <<1, 1, 0, 0, 1, 0>>, <<1>>, <<0, 1, 1, 0>>, <<1, 0, 0, 1, 0, 0, 0, 1, 1>>,
+                               <<0, 1, 0, 0, 0, 1, 1, 0, 0, 0, 0, 1>>} :
                   \E axs \in {<<0, 0>>} \cup {<<1, a>> : a \in (-Rank(L))..(Rank(L) - 1)} :
-                     /\ Len(cond) <= (IF axs[1] = 0 THEN NSize(T(L)) ELSE T(L).sh[NormAxis(axs[2], Rank(L)) + 1])
+                     /\ LET len == (IF axs[1] = 0 THEN NSize(T(L)) ELSE T(L).sh[NormAxis(axs[2], Rank(L)) + 1])
+                        IN Len(cond) = len \/ (Wide /\ cond = <<1>> /\ len >= 1)
                      /\ Push("compress", <<L>>, CSpec(cond, axs[1], axs[2]))
 
 \* ---- products and linear algebra
